@@ -390,7 +390,7 @@ def _ev(e, env):
         if isinstance(base, (list, dict, set, tuple, str, bytes, frozenset)) and e.attr in (
                 "pop", "append", "extend", "insert", "remove", "index", "count", "reverse", "sort", "clear", "copy", "get", "items",
                 "keys", "values", "update", "setdefault", "add", "discard", "upper", "lower", "strip", "split", "join", "startswith",
-                "endswith", "encode", "decode", "format", "popitem"):
+                "endswith", "encode", "decode", "format", "popitem", "find", "rfind", "replace", "rsplit", "partition", "rpartition"):
             bound = getattr(base, e.attr)
 
             def guarded(*a, **k):
@@ -534,6 +534,21 @@ def _ev(e, env):
             if len(e.args) == 3:
                 return _ev(e.args[2], env)
             raise Raised("AttributeError")
+        if d == "getattr" and len(e.args) in (2, 3):
+            o_ = _ev(e.args[0], env)
+            nm_ = _ev(e.args[1], env)
+            if isinstance(o_, ModelObj):
+                if nm_ in o_.attrs:
+                    return o_.attrs[nm_]
+                if len(e.args) == 3:
+                    return _ev(e.args[2], env)
+                raise Raised("AttributeError")
+            if getattr(o_, "mi_native", False) and isinstance(nm_, str) and not nm_.startswith("mi_"):
+                if hasattr(o_, nm_):
+                    return getattr(o_, nm_)
+                if len(e.args) == 3:
+                    return _ev(e.args[2], env)
+                raise Raised("AttributeError")
         if d == "isinstance" and len(e.args) == 2 and isinstance(e.args[1], ast.Name) and e.args[1].id in (
                 "str", "bytes", "int", "float", "tuple", "list", "dict", "bool", "set", "frozenset") and "__isinstance__" not in env:
             import builtins as _b
